@@ -277,13 +277,20 @@ NEUTRALISE = [
 ]
 
 
+DENOTES = "[names denoted]"
+PREFIXED = "C11-anyattr-prefixed-value"
+
+
 def oracle_preserve(a):
     """parse (native/lxml handler) -> serialize (native/lxml writer) -> independent re-read (lxml):
     the infoset of the document is unchanged modulo `≈ws`"""
     u, desc, ctx = L.host(a["kind"], a["nsmode"], a["target"], a.get("attributes", False), a.get("head", False))
     doc = a["tree"]
     data = G.tree_xml(doc)
-    want = L.norm(G.xml_tree(data), host=True)
+    read = G.xml_tree(data)
+    want = L.norm(read, host=True)
+    want_d = L.norm(read, host=True, denoted=True)
+    spelled = None
     for handler in ("native", "lxml"):
         from xsdata.formats.dataclass.context import XmlContext
         from xsdata.formats.dataclass.parsers import XmlParser
@@ -304,30 +311,43 @@ def oracle_preserve(a):
                 back = G.xml_tree(xml.encode())
             except Exception as e:  # noqa: BLE001
                 return f"{handler}/{writer}: serializing the parsed generic content failed: {type(e).__name__}: {e}"
-            d = L.first_diff(want, L.norm(back, host=True))
+            # first: what every attribute value denotes in the scope of its element (however it is spelled) ...
+            d = L.first_diff(want_d, L.norm(back, host=True, denoted=True))
             if d:
-                return f"{handler}/{writer}: {d}"
-    return None
+                return f"{handler}/{writer}: {DENOTES} {d}"
+            # ... then (after every handler/writer passed the first test) its spelling
+            d = L.first_diff(want, L.norm(back, host=True))
+            if d and spelled is None:
+                spelled = f"{handler}/{writer}: {d}"
+    return spelled
 
 
 def covered_preserve(a, msg):
-    hits = []
-    for fid, trig, neut in NEUTRALISE:
-        if any(trig(n, d, a) for n, d in _walk(a["tree"])):
-            hits.append((fid, neut))
-    for fid, neut in hits:
+    """The finding C11-anyattr-prefixed-value only changes the *spelling* of a prefixed value (to the Clark form of
+    the name it denotes in the scope of its element): it covers a failure only when the denoted names agree."""
+    hits = [(fid, neut) for fid, trig, neut in NEUTRALISE if any(trig(n, d, a) for n, d in _walk(a["tree"]))]
+    pref = any(fid == PREFIXED for fid, _ in hits)
+    others = [(fid, neut) for fid, neut in hits if fid != PREFIXED]
+    if DENOTES not in msg:
+        return PREFIXED if pref else None
+
+    def spelled_only(t2):
+        m2 = oracle_preserve({**a, "tree": t2})
+        return m2 is None or (pref and DENOTES not in m2)
+
+    for fid, neut in others:
         t2 = copy.deepcopy(a["tree"])
         for n, d in _walk(t2):
             neut(n, d, a)
-        if oracle_preserve({**a, "tree": t2}) is None:
+        if spelled_only(t2):
             return fid
-    if len(hits) > 1:
+    if len(others) > 1:
         t2 = copy.deepcopy(a["tree"])
-        for fid, neut in hits:
+        for fid, neut in others:
             for n, d in _walk(t2):
                 neut(n, d, a)
-        if oracle_preserve({**a, "tree": t2}) is None:
-            return hits[0][0]
+        if spelled_only(t2):
+            return others[0][0]
     return None
 
 
@@ -377,14 +397,25 @@ def oracle_treeparser(a):
     t = copy.deepcopy(a["tree"])
     t["tl"] = None
     data = G.tree_xml(t)
-    want = L.ref_any(G.xml_tree(data))
-    for handler in ("native", "lxml"):
+    read = G.xml_tree(data)
+    want = L.ref_any(read)
+    want_d = L.ref_any(read, denoted=True)
+    spelled = None
+    for handler in ("native", "lxml", "events"):
         try:
-            got = L.any_json(L.real_tree_parse_bytes(data, handler))
+            if handler == "events":      # pre-recorded events (EventsHandler): every START carries its in-scope map
+                got = L.any_json(L.real_tree_parse_events(read))
+            else:
+                got = L.any_json(L.real_tree_parse_bytes(data, handler))
         except Exception as e:  # noqa: BLE001
             return f"TreeParser({handler}) raised {type(e).__name__}: {e}"
-        if got != want:
-            return f"TreeParser({handler}): {json.dumps(got, ensure_ascii=False)[:300]} != expected {json.dumps(want, ensure_ascii=False)[:300]}"
+        # an AnyElement tree carries no prefix map: a name is only denoted by its expanded form
+        got_d = got
+        if got_d != want_d:
+            return (f"TreeParser({handler}): {DENOTES} {json.dumps(got_d, ensure_ascii=False)[:400]} != expected "
+                    f"{json.dumps(want_d, ensure_ascii=False)[:400]}")
+        if got != want and spelled is None:
+            spelled = f"TreeParser({handler}): {json.dumps(got, ensure_ascii=False)[:300]} != expected {json.dumps(want, ensure_ascii=False)[:300]}"
     # the same tree inside a typed model (list wildcard, ##any), unless the root itself is xsi:type'd / a known class
     if not any(k == L.XSI_TYPE for k, v in t["a"]):
         u, desc, ctx = L.host("list", "##any", None)
@@ -392,18 +423,20 @@ def oracle_treeparser(a):
         if "ok" not in r:
             return f"wildcard field did not capture the tree: {r}"
         w = dict(r["ok"]["value"]["fields"])["w"]["list"]
-        if w != [want]:
-            return f"wildcard field captured {json.dumps(w, ensure_ascii=False)[:300]}, TreeParser built {json.dumps(want, ensure_ascii=False)[:300]}"
-    return None
+        if w != [want_d]:
+            return (f"wildcard field: {DENOTES} captured {json.dumps(w, ensure_ascii=False)[:300]}, TreeParser built "
+                    f"{json.dumps(want_d, ensure_ascii=False)[:300]}")
+        if w != [want] and spelled is None:
+            spelled = f"wildcard field captured {json.dumps(w, ensure_ascii=False)[:300]}, TreeParser built {json.dumps(want, ensure_ascii=False)[:300]}"
+    return spelled
 
 
 def covered_treeparser(a, msg):
-    if any(k != L.XSI_TYPE and _declared_prefixed(n, v) or (k == L.XSI_TYPE and ":" in v) for n, d in _walk(a["tree"]) for k, v in n["a"]):
-        t2 = copy.deepcopy(a["tree"])
-        for n, d in _walk(t2):
-            n["a"] = [[k, ("v" if (":" in v and not v.startswith("{") and "//" not in v and _declared_prefixed(n, v)) else v)] for k, v in n["a"]]
-        if oracle_treeparser({"tree": t2}) is None:
-            return "C11-anyattr-prefixed-value"
+    """only the spelling of prefixed values (attributes and xsi:type alike) may differ from the document"""
+    if DENOTES in msg:
+        return None
+    if any(L.declared_prefixed(v, {p: u for p, u in n["ns"]}) for n, d in _walk(a["tree"]) for k, v in n["a"]):
+        return PREFIXED
     return None
 
 
